@@ -10,5 +10,5 @@ Theorem C23_DS_DF_from_DS_DEGL : forall a b c d : nat -> R,
   (DS_DF_from_DS_DEGL_1 a b c d = flat_C 1%nat (spec_DS_DF_from_DS_DEGL 1%nat (full_A 1%nat a) (full_t 1%nat b) (full_t 1%nat c) (full_s 1%nat d))) /\
   (DS_DF_from_DS_DEGL_2 a b c d = flat_C 2%nat (spec_DS_DF_from_DS_DEGL 2%nat (full_A 2%nat a) (full_t 2%nat b) (full_t 2%nat c) (full_s 2%nat d))) /\
   (DS_DF_from_DS_DEGL_3 a b c d = flat_C 3%nat (spec_DS_DF_from_DS_DEGL 3%nat (full_A 3%nat a) (full_t 3%nat b) (full_t 3%nat c) (full_s 3%nat d))).
-Proof. intros; exact (conj (DS_DF_from_DS_DEGL_1_ok a b c d) (conj (DS_DF_from_DS_DEGL_2_ok a b c d) (DS_DF_from_DS_DEGL_3_ok a b c d))). Qed.
+Proof. intros a b c d; exact (conj (DS_DF_from_DS_DEGL_1_ok a b c d) (conj (DS_DF_from_DS_DEGL_2_ok a b c d) (DS_DF_from_DS_DEGL_3_ok a b c d))). Qed.
 Print Assumptions C23_DS_DF_from_DS_DEGL.
